@@ -308,6 +308,8 @@ def refract(n, nprime, S, r):
     """
     mu = n/nprime
     musq = mu * mu
+    # the surface normal is not necessarily of unit length (Surface.sag_normal returns (-Fx, -Fy, 1))
+    r = r / np.sqrt(_multi_dot(r, r))[:, np.newaxis]
     cosI = _multi_dot(r, S)
     cosIsq = cosI * cosI
     # the inline newaxis-es are terrible for readability, but serve a performance purpose
